@@ -85,6 +85,15 @@ pub fn gen(seed: u64, b: i64, nops: usize) -> Value {
                 ctxs.retain(|c| *c != id);
             }
             ops.push(json!({"op": "remove", "id": id}));
+        } else if r < 53 && profile == 1 {
+            // the clock moves while a streaming read is stalled
+            let c = if rng.gen_bool(0.6) || ctxs.is_empty() { if rng.gen_bool(0.5) { -1 } else { 0 } } else { ctxs[rng.gen_range(0..ctxs.len())] };
+            let n = rng.gen_range(1..3);
+            let lim = [-1, -1, 2, 4][rng.gen_range(0..4)];
+            let kk = rng.gen_range(0..3);
+            ops.push(json!({"op": "slowread", "ctx": c, "last": -2, "lim": lim, "k": kk, "n": n}));
+            t += n;
+            k = 0;
         } else if r < 60 {
             t += 1;
             k = 0;
